@@ -149,9 +149,21 @@ func TestVerif_C15(t *testing.T) {
 		nclients := 2 + r.IntN(7)
 		nops := 12 + r.IntN(49)
 		lists := make([][]vk.CacheOp, nclients)
+		// one history in three is query-heavy and asks the same two or three questions over and
+		// over (many clients sending the same REQ while a few events come in)
+		var favourite [][]*mocrelay.ReqFilter
+		if i%3 == 1 {
+			favourite = [][]*mocrelay.ReqFilter{{{}}, fg.Filters(2)}
+			if r.IntN(2) == 0 {
+				favourite = append(favourite, []*mocrelay.ReqFilter{{Authors: g.Authors[:1]}})
+			}
+			rep.Count("query_heavy_histories", 1)
+		}
 		for k := 0; k < nops; k++ {
 			var op vk.CacheOp
 			switch c := r.IntN(10); {
+			case favourite != nil && c >= 3 && c < 9:
+				op = vk.CacheOp{Kind: "find", Filters: vk.Pick(r, favourite)}
 			case c < 6:
 				op = vk.CacheOp{Kind: "add", Event: vk.Pick(r, pool)}
 			case c < 9:
@@ -672,6 +684,49 @@ func TestVerif_C15(t *testing.T) {
 		wg.Wait()
 		rep.Eval(1)
 		rep.Count("big_deletion_rounds", 1)
+	}
+	// (h) many clients ask the same question over and over while one session inserts: a query
+	// that starts after an insertion has returned lists the inserted event (nothing is ever
+	// removed here: capacity is never reached and there are no deletion requests)
+	for round := 0; round < vk.N(60, 800) && rep.Violations() < 3; round++ {
+		r := vk.RNG("C15/ryw", round)
+		c := mocrelay.NewEventCache(100000)
+		author := vk.FakePub(1800 + r.IntN(3))
+		fs := vk.Pick(r, [][]*mocrelay.ReqFilter{{{}}, {{Authors: []string{author}}}, {{Kinds: []int64{1}}, {Authors: []string{author}, Limit: vk.Ptr(int64(1000))}}})
+		var stop atomic.Bool
+		var wg sync.WaitGroup
+		for q := 0; q < 2+r.IntN(3); q++ {
+			wg.Add(1)
+			go func() {
+				defer wg.Done()
+				for !stop.Load() {
+					c.Find(fs)
+					rep.Count("repeated_identical_queries", 1)
+				}
+			}()
+		}
+		n := 30 + r.IntN(60)
+		for j := 0; j < n; j++ {
+			e := vk.Seal(&mocrelay.Event{Kind: 1, Pubkey: author, CreatedAt: int64(1000 + j), Content: fmt.Sprintf("ryw %d %d", round, j), Tags: []mocrelay.Tag{}})
+			added := c.Add(e)
+			found := false
+			for _, x := range c.Find(fs) {
+				if x.ID == e.ID {
+					found = true
+				}
+			}
+			rep.Eval(1)
+			if !added || !found {
+				rep.Violation("concurrent/read-your-write/inserted-event-not-listed", fmt.Sprintf("Add returned %v for a new event and a matching query started afterwards lists it: %v (other goroutines were repeating the same query)", added, found), map[string]any{"filters": vk.JSON(fs), "insertion_number": j})
+				break
+			}
+			if r.IntN(3) == 0 {
+				runtime.Gosched()
+			}
+		}
+		stop.Store(true)
+		wg.Wait()
+		rep.Count("read_your_write_rounds", 1)
 	}
 	pc.report(rep)
 	rep.Require(rep.Counter("big_deletion_rounds") >= 10, "big deletion rounds")
